@@ -106,6 +106,9 @@ def gen_case(case_seed, cfg):
             prior[p] = ["gaussian", netgen.nice(v), netgen.nice(v * 0.8)]
         if r.random() < 0.4:
             prior[p].append("positive")
+        if seeds.rng(r.getrandbits(32), "custom_prior").random() < 0.25:
+            # a user supplied ('custom') log-density: Laplace(loc, scale); materialised as a callable in build_setup
+            prior[p] = ["custom_laplace", netgen.nice(v), netgen.nice(v * 0.6)] + (["positive"] if "positive" in prior[p] else [])
     thetas = []
     base = [model["params"][p] for p in est]
     pts = []
@@ -147,7 +150,22 @@ def log_prior(prior, est, theta):
             lp += math.log(1.0 / (pr[2] - pr[1]))
         elif pr[0] == "gaussian":
             lp += -0.5 * ((v - pr[1]) / pr[2]) ** 2 - math.log(math.sqrt(2 * math.pi) * pr[2])
+        elif pr[0] == "custom_laplace":
+            lp += -abs(v - pr[1]) / pr[2] - math.log(2.0 * pr[2])
     return lp
+
+
+def materialise_prior(prior):
+    """The JSON-able prior description as the dictionary the API takes ('custom' priors carry a callable as last element)."""
+    out = {}
+    for p, pr in prior.items():
+        if pr[0] == "custom_laplace":
+            loc, scale = pr[1], pr[2]
+            f = (lambda loc, scale: (lambda name, value: -abs(value - loc) / scale - math.log(2.0 * scale)))(loc, scale)
+            out[p] = ["custom"] + [x for x in pr[3:] if x == "positive"] + [f]
+        else:
+            out[p] = list(pr)
+    return out
 
 
 def twin_run(case, traj, theta, stochastic, data_species_order=None):
@@ -224,7 +242,7 @@ def build_setup(case, frames, measurements, trajs):
         ics = ics[0]
         conds = conds[0] if conds is not None else None
     kw = dict(Model=M, exp_data=exp, measurements=list(measurements), time_column="time",
-              params_to_estimate=list(case["estimate"]), prior=copy.deepcopy(case["prior"]), initial_conditions=ics,
+              params_to_estimate=list(case["estimate"]), prior=materialise_prior(case["prior"]), initial_conditions=ics,
               parameter_conditions=conds, norm_order=case["norm"], sim_type=case["sim_type"], nwalkers=4, nsteps=2)
     if case["sim_type"] == "stochastic":
         kw["N_simulations"] = case["N_sims"]
